@@ -23,8 +23,13 @@ statement, these parts of `/repo/pysyncobj/syncobj.py` (tree with the repairs D1
 
 Time is `Nat` in units of 2⁻¹⁰ s; `rand` is the numerator k of the patched `random.random() = k/1024`.
 Python sets are lists (canonical: ascending, duplicate free), dicts are association lists; reading a
-missing key of `__raftMatchIndex` / `__lastResponseTime` for a voter (a `KeyError` in Python) reads 0
-here — the invariant `KeysOK` (proved preserved in `Proofs/NodeTickKeys.lean`) excludes it for leaders.
+missing key of `__raftMatchIndex` / `__lastResponseTime` for a voter (a `KeyError` in Python that would
+abort `_onTick`) reads 0 here.  Precondition `KeysOK`: a leader has both entries for every voter — established
+by `__onBecomeLeader` and preserved by every modelled handler (proved: `Proofs/NodeTickKeys.lean`, `step_keysOK`);
+the correspondence generator produces only such states and
+reports any `KeyError` of the real tick as an output the model does not have (a disagreement).  The one place
+where the code itself can hit a missing key on a well-formed state — `next_node_idx` with `success` from a node
+it does not track — is modelled (`Output.keyError`).
 -/
 namespace PSO.NodeTick
 open PSO.Raft (Role isMajority)
